@@ -343,8 +343,6 @@ def main():
     return chk.finish()
 
 
-if __name__ == "__main__":
-    run_main(main)
 
 
 # ----------------------------------------------------------------------------- shipped networks, pattern-directed (thorough)
@@ -455,3 +453,7 @@ def shipped_pattern_directed(chk, conv):
                 chk.report("C01/afftree_from_layers/shipped-mnist/" + c["kind"], "mnist-5-5 at x=%s: %s" % ([float(v) for v in xf], d),
                            {"kind": "eval", "case": {"id": "mnist", "steps": steps}, "tree": "t", "point": point_hex(xf),
                             "expected": [str(e) for e in exp]})
+
+
+if __name__ == "__main__":
+    run_main(main)
